@@ -26,7 +26,9 @@ PairsAre(ps, f) == /\ Len(ps) = Cardinality(DOMAIN f)
 Clauses(e) ==
   <<  <<"res",      e.res = res'>>,
       <<"kv",       PairsAre(e.kv, kv')>>,
-      <<"key2keys", \A i \in DOMAIN e.k2k : e.k2k[i][2] = ord'[kv'[e.k2k[i][1]]]>>,
+      <<"key2keys", \A i \in DOMAIN e.k2k : /\ e.k2k[i][1] \in DOMAIN kv'
+                                               /\ kv'[e.k2k[i][1]] \in DOMAIN ord'
+                                               /\ e.k2k[i][2] = ord'[kv'[e.k2k[i][1]]]>>,
       <<"ord",      PairsAre(e.ord, ord')>>,
       <<"len",      e.len = Cardinality(DOMAIN ord')>>,
       <<"iter",     e.iter = Cardinality(DOMAIN ord')>>,
